@@ -1,3 +1,4 @@
+import Driver.C02
 import Driver.C03
 import Driver.C04
 import Driver.C15
@@ -39,6 +40,10 @@ def dispatch (line : String) : String :=
     | "pool" => PoolOp.poolOp args
     | "transports" => C18.transportsOp args
     | "body" => C10.bodyOp args
+    | "hval" => C02.hvalOp false args
+    | "hvalrt" => C02.hvalOp true args
+    | "hname" => C02.hnameOp args
+    | "hdrs" => C02.hdrsOp args
     | "crlf" => C10.simpleOp LV.BodyEnc.crlfNormalize "crlf" args
     | "qp" => C10.qpOp args
     | "b64" => C10.b64Op args
